@@ -386,17 +386,17 @@ Proof. vm_compute. split; reflexivity. Qed.
    encrypt — on ONE object.  The model keeps nothing between the calls but the fields: *)
 Theorem session_is_map_of_stateless_exports : forall pubser oc s ops,
   session pubser oc s ops =
-  map (fun p => sop_answer pubser oc (fst p) (snd p)) (combine (session_states oc s ops) ops).
+  map (fun p => sop_answer pubser oc (fst p) (snd p)) (combine (session_states s ops) ops).
 Proof. exact session_is_map. Qed.
 
 (* the answer of a call depends on the calls before it only through the fields they leave behind *)
 Theorem session_answer_depends_on_fields_only : forall pubser oc s a op b d,
-  nth (length a) (session pubser oc s (a ++ op :: b)) d = sop_answer pubser oc (session_final oc s a) op.
+  nth (length a) (session pubser oc s (a ++ op :: b)) d = sop_answer pubser oc (session_final s a) op.
 Proof. exact session_nth_answer. Qed.
 
 (* exports — with whatever explicit version bytes, witness type, multisig flag — do not touch the fields ... *)
-Theorem exports_leave_fields_unchanged : forall oc s ops,
-  forallb pure_export ops = true -> session_final oc s ops = s.
+Theorem exports_leave_fields_unchanged : forall s ops,
+  forallb pure_export ops = true -> session_final s ops = s.
 Proof. exact pure_exports_keep_fields. Qed.
 
 (* ... so the next call answers as on a fresh object with the same fields (no stored text of an earlier export) *)
@@ -404,6 +404,23 @@ Theorem export_after_exports_is_fresh : forall pubser oc s ops op rest d,
   forallb pure_export ops = true ->
   nth (length ops) (session pubser oc s (ops ++ op :: rest)) d = sop_answer pubser oc s op.
 Proof. exact export_after_pure_exports. Qed.
+
+(* every export is pure — HDKey.wif with an explicit child_index included (fixes/C03-8): [pure_export] holds of every
+   wif / wif_key / HDKey.wif / wif_private / wif_public / raw-form / opaque call and of address() without compressed= *)
+Theorem every_xkey_export_is_pure : forall isp child prefix wt ms, pure_export (SXkey isp child prefix wt ms) = true.
+Proof. exact xkey_export_is_pure. Qed.
+
+Theorem xkey_after_explicit_child_index_is_default_export : forall pubser oc s isp c prefix wt ms want,
+  session pubser oc s [SXkey isp (Some c) prefix wt ms; SXkey (Some want) None None None None] =
+  [AText (lib_xkey_with pubser oc (ss_km s) isp (Some c) prefix wt ms); AText (lib_xkey pubser oc (ss_km s) want)].
+Proof. exact xkey_after_explicit_child. Qed.
+
+(* the code before fixes/C03-8 stored the argument in the object: wif(child_index=7) left child_index = 7 behind *)
+Example child_index_side_effect_old_code_refuted :
+  km_child (ss_km (sop_step_pre_c03_8 (fun _ => true) (ss_init session_km) (SXkey (Some true) (Some 7) None None None))) = 7 /\
+  km_child (ss_km (sop_step (ss_init session_km) (SXkey (Some true) (Some 7) None None None))) = 0 /\
+  pure_export (SXkey (Some true) (Some 7) None None None) = true.
+Proof. vm_compute. repeat split; reflexivity. Qed.
 
 Theorem wif_after_explicit_prefix_is_plain_wif : forall pubser oc s p,
   session pubser oc s [SWif (Some p); SWif None] =
@@ -423,13 +440,13 @@ Proof. exact wif_after_address_compressed. Qed.
 
 (* no call changes the public point, the construction-time compressed flag, chain code, depth, fingerprint, witness type
    or multisig flag; the secret is unchanged until public() removes it *)
-Theorem session_keeps_key_material : forall oc s ops,
-  key_material (ss_km (session_final oc s ops)) = key_material (ss_km s).
+Theorem session_keeps_key_material : forall s ops,
+  key_material (ss_km (session_final s ops)) = key_material (ss_km s).
 Proof. exact KeyFormatSession.session_keeps_key_material. Qed.
 
-Theorem session_keeps_secret : forall oc s ops,
-  km_private (ss_km (session_final oc s ops)) = true ->
-  km_private (ss_km s) = true /\ km_secret (ss_km (session_final oc s ops)) = km_secret (ss_km s).
+Theorem session_keeps_secret : forall s ops,
+  km_private (ss_km (session_final s ops)) = true ->
+  km_private (ss_km s) = true /\ km_secret (ss_km (session_final s ops)) = km_secret (ss_km s).
 Proof. exact session_secret. Qed.
 
 (* the default calls are the exporters the round-trip theorems above are about *)
@@ -448,7 +465,7 @@ Proof. exact lib_xkey_with_own_values. Qed.
 (* after ANY calls: while the object holds its secret, wif() / wif_key() imports back to the secret, the network the
    object has now and the compressed attribute it has now, and is classified private *)
 Theorem session_wif_roundtrip : forall pubser oc fold k ops n,
-  let s := session_final oc (ss_init k) ops in
+  let s := session_final (ss_init k) ops in
   In n all_networks -> km_network (ss_km s) = nw_name n -> km_private (ss_km s) = true ->
   length (km_secret k) = 32%nat -> 0 < of_be (km_secret k) < secp256k1_n ->
   exists w,
@@ -463,7 +480,7 @@ Proof. exact KeyFormatSession.session_wif_roundtrip. Qed.
    xkey_export_is_row_text and xkey_roundtrip* apply to them *)
 Theorem session_xkey_is_stateless_export : forall pubser oc s ops want rest d,
   nth (length ops) (session pubser oc s (ops ++ SXkey (Some want) None None None None :: rest)) d =
-  AText (lib_xkey pubser oc (ss_km (session_final oc s ops)) want).
+  AText (lib_xkey pubser oc (ss_km (session_final s ops)) want).
 Proof. exact KeyFormatSession.session_xkey_is_stateless_export. Qed.
 
 (* non-vacuity, computed: litecoin version byte first, then the plain WIF (bitcoin), network_change('testnet'), WIF
@@ -520,6 +537,8 @@ Print Assumptions session_is_map_of_stateless_exports.
 Print Assumptions session_answer_depends_on_fields_only.
 Print Assumptions exports_leave_fields_unchanged.
 Print Assumptions export_after_exports_is_fresh.
+Print Assumptions every_xkey_export_is_pure.
+Print Assumptions xkey_after_explicit_child_index_is_default_export.
 Print Assumptions wif_after_explicit_prefix_is_plain_wif.
 Print Assumptions wif_after_network_change_is_new_network.
 Print Assumptions wif_after_address_follows_compressed_attribute.
